@@ -4,14 +4,4 @@ NOTES = ("Technique: machine-checked proof in Lean 4 about hand-written models o
          "/repo's working tree on every run by a correspondence check (contracts recompiled from the tree, executed on neo-go's VM, "
          "compared line by line with the models' executable definitions) and by facts regenerated from the sources. "
          "See DESIGN.md. Genuine defects found: known_findings.json.")
-BAL_NOTE = ("Theorems are about NeoFS/Model/Balance.lean, a branch-by-branch model of contracts/balance/contract.go. "
-            "Trusted: Lean kernel; axioms propext/Classical.choice/Quot.sound only; the model-to-code tie is differential "
-            "(seeded histories + corpus on the contract compiled from the working tree, raw storage scan and read API compared after every op); "
-            "NeoVM runtime facts of DESIGN.md section 4 (transaction atomicity, Find snapshot, Notify manifest compliance); the Go harness and its monitors.")
-CLAIMS = {
-    "C01": dict(text="Unbounded proof by induction over histories: for every history inside the property's quantifier, after every prefix, "
-                     "supply = sum of balances, no balance is negative, supply changes only by mint/burn, failed and refused calls change nothing, "
-                     "notifications replay to the balances. Correspondence run + monitors tie the model to the contract and exhibit failing inputs.",
-                note=BAL_NOTE, technique="Lean 4 invariant proof over a hand-written model + differential correspondence check against the compiled contract"),
-}
 PENDING = {}
